@@ -408,6 +408,10 @@ def xwaves(rng, d):
     times = [t0 + np.timedelta64(k * 3600, "s") for k in range(nt)]
     td = np.array([[int(str(t)[0:4]), int(str(t)[5:7]), int(str(t)[8:10]), int(str(t)[11:13]), int(str(t)[14:16]), int(str(t)[17:19])] for t in times])
     E = np.array([lobes(rng, f, th) for _ in range(nt)])
+    if nt > 1 and rng.random() < 0.4:
+        # records in any order in the file (a later deployment stored first, descending logs): each keeps its own stamp
+        o_ = rng.permutation(nt)
+        times, td, E = [times[i] for i in o_], td[o_], E[o_]
     p = os.path.join(d, "xwaves.mat")
     savemat(p, {"td": td, "fd": f.reshape(-1, 1), "thetad": th.reshape(1, -1), "spec2d": E * 180.0 / np.pi})
     return [p], {"time": np.array(times), "freq": f, "dir": th, "E": E}
